@@ -411,6 +411,13 @@ def r_relink(ctx, rule='R-RELINK'):
                     puts.append(c)
         if not puts:
             continue
+        # a parent rewritten after the recursion links what the recursion returned on *both* sides: a child field that is
+        # still the link as it was read would drop whatever the recursion created or moved on that side
+        for pc in puts:
+            d = paths.agg_fields(pc.arg_term(2), 'node::SplitPlaneNormal')
+            stale = [side for side in ('left', 'right') if d and side in d and not any(paths.mentions_call(d[side], r.bb) for r in rec)]
+            ctx.check(not stale, rule, '%s/rewritten-parent-links-results' % f.path, pc.loc(), 'both children of the rewritten parent come from the recursion results',
+                      'in `%s` the parent split is rewritten with its %s child still the link read before the recursion: a node the recursion created or moved on that side becomes unreachable' % (f.path, '/'.join(stale)))
         goals = [b for b, k, t in paths.ret_assigns(f) if k in ('ok', 'call', 'other')]
         for b in f.live_blocks():
             if paths.switch_at(f, b) is None:
@@ -1939,6 +1946,16 @@ def r_tree_count(ctx, rule='R-NTREES'):
                                 keep = (c0[1] == 'Gt' and roots_len_side(sides[0])) or (c0[1] == 'Lt' and roots_len_side(sides[1]))
                                 if keep and e[2] and rm and rm[0].bb in g.reachable(x0):
                                     bound_b = True
+            if bound_a and not bound_b and rm:
+                # the surplus `roots.len() - target` is computed once, before the removal loop: re-evaluated inside the loop it
+                # shrinks together with `roots` and the loop stops half way
+                lp_rm = set()
+                for h in g.dominators().get(rm[0].bb, ()):
+                    lp = paths.natural_loop(g, h)
+                    if rm[0].bb in lp:
+                        lp_rm |= set(lp)
+                if any(x.bb in lp_rm for x in subs if is_roots(x.arg_term(0)) and is_target(x.arg_term(1))):
+                    bound_a = False
             okk = (bound_a or bound_b) and bool(rm) and bool(dt)
             okk = okk and all(paths.mentions_call(x.arg_term(len(x.args) - 1), rm[0].bb) for x in dt if 'delete_tree' in x.callee or len(x.args) == 3)
             if okk:
